@@ -336,6 +336,9 @@ type backend struct {
 	reject  func() error
 	seenKey map[string]int
 	byGate  map[string]*backendCall
+	// deaf, when set, says whether call number n ignores its context while parked: a backend client that notices a
+	// cancelled attempt only when it has its own answer ready (and then reports that answer, not the context's error)
+	deaf func(n int) bool
 }
 
 func (b *backend) byGateID(id string) *backendCall {
@@ -371,13 +374,17 @@ func (b *backend) push(ctx context.Context, p any) error {
 	c.Gate = fmt.Sprintf("call:%s#%d", key, b.seenKey[key])
 	b.byGate[c.Gate] = c
 	rej := b.reject
+	done := ctx.Done()
+	if b.deaf != nil && b.deaf(c.N) {
+		done = nil
+	}
 	b.mu.Unlock()
 	if rej != nil {
 		if err := rej(); err != nil {
 			return err
 		}
 	}
-	v, ok := b.gate.ParkCtx(c.Gate, ctx.Done())
+	v, ok := b.gate.ParkCtx(c.Gate, done)
 	if !ok {
 		b.mu.Lock()
 		c.Answered = true
